@@ -278,9 +278,9 @@ fn ascii_slice<'a>(s: &'a str, a: usize, b: usize) -> (r: &'a str)
 fn ascii_contains(s: &str, c: char) -> (r: bool)
     ensures r == has_char(s@, c),
 { s.contains(c) }
-/// `matches!(s.as_bytes().get(i), Some(b'+' | b'-'))`
+/// `matches!(s.as_bytes().get(i), Some(<one of the listed bytes>))`
 #[verifier::external_body]
-fn ascii_sign_at(s: &str, i: usize) -> (r: bool)
+fn ascii_byte_in(s: &str, i: usize, set: &[u8]) -> (r: bool)
     requires all_ascii(s@),
-    ensures r == (i < s@.len() && (s@[i as int] == '+' || s@[i as int] == '-')),
-{ matches!(s.as_bytes().get(i), Some(b'+' | b'-')) }
+    ensures r == (i < s@.len() && (exists|k: int| 0 <= k < set@.len() && set@[k] == s@[i as int] as u8)),
+{ match s.as_bytes().get(i) { Some(b) => set.contains(b), None => false } }
